@@ -263,6 +263,29 @@ def judge_pairs(rec, pairs, flows, py_pairs=None, label='', py_excluded=None, wh
             rec.interesting(['flow'] + f3)
 
 
+def retagged_list_probe(rec):
+    """A caller keeps ONE tag list and edits it in place (a transaction re-tagged and analysed again): every classification answers for what the list holds NOW."""
+    core.import_tally()
+    from tally import classification as cl
+    live = ['income']
+    contents = [['income'], ['groceries'], ['Transfer', 'x'], [], ['investment'], ['INCOME', 'investment'], ['refund']]
+
+    def ask(a, tags):
+        return (cl.categorize_amount(a, tags), cl.normalize_amount(a, tags), cl.is_excluded_from_spending(tags), cl.is_income(tags), cl.is_transfer(tags), cl.is_investment(tags))
+    wants = {(i, a): ask(a, list(c)) for i, c in enumerate(contents) for a in (250.0, -250.0)}      # (asked first: nothing but the live list is classified below)
+    for step, content in enumerate(contents):
+        live[:] = content
+        for a in (250.0, -250.0):
+            rec.case()
+            rec.count('classifications_of_a_list_edited_in_place')
+            got = ask(a, live)
+            want = wants[(step, a)]
+            if got != want:
+                rec.violation('classification-remembers-an-earlier-tag-list', f'step {step}: the caller\'s list now holds {content}: amount {a} classified as {got[0]}, a fresh list '
+                              f'with the same tags gives {want[0]}', {'kind': 'retagged'})
+                return
+
+
 def page_totals(rec, pages):
     """"... so totals recomputed in the browser agree with the totals tally prints": the page's own script is run (Vue stubbed, no filter active) over the
     data of each generated report; its `filteredViewTotals` are the analysed totals of that report."""
@@ -413,12 +436,16 @@ def run(rec, shard, nshards, t):
     judge_pairs(rec, wp, flows[:200], label=':whole-script', whole=True)
     rec.count('whole_script_pairs', len(wp))
     report_level(rec, rnd, 60 if t == 'quick' else 1500)
+    if shard == 0:
+        retagged_list_probe(rec)
     for p in pairs[:3] + pairs[len(pairs) // 2: len(pairs) // 2 + 2]:
         rec.sample({'amount': p[0], 'tags': p[1]})
 
 
 def replay(rec, case):
-    if case.get('kind') == 'report-level':
+    if case.get('kind') == 'retagged':
+        retagged_list_probe(rec)
+    elif case.get('kind') == 'report-level':
         report_level(rec, core.rng_for('C13', 'replay'), 300)
     elif case.get('kind') == 'flow':
         judge_pairs(rec, [], [case['f']])
